@@ -434,12 +434,35 @@ func runC17(t *testing.T, spec RunSpec) *Verdict {
 	var got outcome
 	var atReturn []string
 	returned := false
+	// twin: a second, independent VM runs another program in the same process at the same time; neither
+	// may notice the other (nothing in the properties is "per process")
+	var twinEnv *vmEnv
+	var twinModel c17Model
+	var twinGot outcome
+	twinDone := false
+	if spec.P("twin", 0) == 1 && !m.fatal && !m.handshake {
+		ts := spec.clone()
+		ts.Params = map[string]int{"shape": 0, "n": 2, "iters": 1, "main_late": 0}
+		twinModel = c17Workload(ts)
+		if tp, err := MustCompile(twinModel.prog); err == nil {
+			twinEnv = newVMEnv(tp, generousLimits)
+		}
+	}
 	res := simrt.Run(t, simConfig(spec.Sim), simSource(spec), func(s *simrt.Sim) {
 		env.boot()
 		if m.fatal {
 			// Once a fatal interrupt has made the product cancel the context,
 			// every other core has to stop within the C10 step bound.
 			env.ctx.OnCancel = func() {}
+		}
+		if twinEnv != nil {
+			s.GoNamed("twin-host", true, func() {
+				twinEnv.boot()
+				twinEnv.vm.SpawnAsync(runtime.MainFn(), nil, nil, nil)
+				num, i := twinEnv.vm.Wait()
+				twinGot = classify(num, i)
+				twinDone = true
+			})
 		}
 		env.vm.SpawnAsync(runtime.MainFn(), nil, nil, nil)
 		if d := spec.P("wait_delay_ms", 0); d > 0 {
@@ -474,6 +497,20 @@ func runC17(t *testing.T, spec RunSpec) *Verdict {
 	if !returned {
 		v.fail(P, "infra", "", "", "host did not return and the simulator reported nothing")
 		return v
+	}
+	if twinEnv != nil {
+		if !twinDone {
+			v.fail(P, "wrong-result", "wait-result", "twin-vm:not-finished", "a second VM running next to this one in the same process did not finish")
+			return v
+		}
+		if twinGot.Kind != "completed" {
+			v.fail(P, "wrong-result", "wait-result", "twin-vm:"+twinGot.Kind, fmt.Sprintf("a second VM running next to this one returned %s (%s)", twinGot.Kind, firstLine(twinGot.Msg)))
+			return v
+		}
+		if d := diffMultiset(multiset(twinEnv.out.Lines()), twinModel.lines); d != "" {
+			v.fail(P, "wrong-result", "output-multiset", "twin-vm", "output of a second VM running next to this one differs from its model: "+d)
+			return v
+		}
 	}
 	final := env.out.Lines()
 	if m.chunked {
@@ -606,6 +643,9 @@ func planC17(t *testing.T, tier string, seed uint64) ([]RunSpec, error) {
 				}
 				for k := 0; k < perCell; k++ {
 					s := base.clone()
+					if k%8 == 2 {
+						s.Params["twin"] = 1
+					}
 					if k%6 == 5 {
 						// a host that does other work between starting the program and waiting for it
 						s.Params["wait_delay_ms"] = []int{1, 5, 40}[(k/6)%3]
